@@ -220,6 +220,15 @@ class Repo:
       self.flattened = inline.flatten_repo(self, pinned)
       from mmsa import lower
       self.lowered = lower.lower_repo(self)
+      # the rewritten functions must still be well-formed Python: a malformed rewrite is a checker fault (exit 2)
+      import copy as _copy
+      for q_, f_ in self.functions.items():
+        if getattr(f_, 'orig_node', None) is not None and f_.node is not f_.orig_node:
+          try:
+            mod_ = ast.Module(body=[ast.parse(ast.unparse(f_.node)).body[0]], type_ignores=[])
+            compile(mod_, '<normalised %s>' % q_, 'exec')
+          except Exception as ex_:     # pragma: no cover
+            raise AnalysisError('normalisation produced a malformed function %s: %s' % (q_, ex_))
 
   # -- anchors ---------------------------------------------------------------
   def module(self, name):
